@@ -2,6 +2,9 @@ package props
 
 import (
 	"fmt"
+	"go/ast"
+	"go/token"
+	"go/types"
 	"os"
 	"sort"
 	"strings"
@@ -19,8 +22,9 @@ func c20(c *Ctx) {
 	p, r := c.Prog, c.R
 	r.Explain = "OWN O4 (deep copy): flow-sensitive origin analysis of Packet.Clone and Header.Clone; every reference " +
 		"reachable from the returned value must be memory allocated inside Clone or nil. Decides independence through its " +
-		"cause (no shared reference), for all packets; value equality of the copied bytes is not decided here."
-	n := 0
+		"cause (no shared reference), for all packets; value equality of the copied bytes is not decided here. STRUCT.clone: every field of the result is written on every " +
+		"path (or the original's is nil), from the same field of the original, and every fresh slice is filled from the slice whose length it takes."
+	n, nk := 0, 0
 	for _, name := range []string{"rtp.(Packet).Clone", "rtp.(Header).Clone"} {
 		fn := p.Func(name)
 		if fn == nil {
@@ -28,8 +32,10 @@ func c20(c *Ctx) {
 			continue
 		}
 		n += deepCopyRule(c, fn)
+		nk += cloneCoverage(c, fn)
 	}
 	r.Floor("reference paths checked in Clone results", n, 6)
+	r.Floor("clone coverage rows (K1 fields, K2 stores, K3 fresh slices)", nk, 14)
 }
 
 // deepCopyRule checks O4 on every return of fn and returns the number of reference paths seen.
@@ -76,4 +82,404 @@ func deepCopyRule(c *Ctx, fn *ssa.Function) int {
 	}
 	_ = fmt.Sprint
 	return len(paths)
+}
+
+// ---- STRUCT.clone: field coverage, source agreement and fill of every fresh slice ---------------
+//
+// K1  on every path to a return every (non-deprecated) field of the result is written, or it is a
+//     nilable field and the path is the one on which the source field is nil;
+// K2  the value written to result.F is computed from source.F and from no other field;
+// K3  every slice allocated with len(X) is filled from X (copy builtin dominated by the make, or an
+//     element store m[i] = X[i]).
+// Necessary conditions of "equal copy": a field skipped on one path, copied from a sibling field,
+// or allocated but never filled makes the clone differ from the original for some packet.
+
+func cloneCoverage(c *Ctx, fn *ssa.Function) int {
+	p, r := c.Prog, c.R
+	fname := core.FuncName(fn)
+	pos := p.Position(fn.Pos())
+	if len(fn.Params) == 0 {
+		r.Fatalf("%s: no receiver", fname)
+		return 0
+	}
+	src := fn.Params[0]
+	srcRoots := map[ssa.Value]bool{src: true}
+	// destination object: the Alloc that is returned (by pointer or by value)
+	var dst *ssa.Alloc
+	for _, b := range fn.Blocks {
+		for _, in := range b.Instrs {
+			switch x := in.(type) {
+			case *ssa.Store:
+				if x.Val == src {
+					if a, ok := x.Addr.(*ssa.Alloc); ok {
+						srcRoots[a] = true
+					}
+				}
+			case *ssa.Return:
+				if len(x.Results) != 1 {
+					continue
+				}
+				v := x.Results[0]
+				if u, ok := v.(*ssa.UnOp); ok && u.Op == token.MUL {
+					v = u.X
+				}
+				if a, ok := v.(*ssa.Alloc); ok {
+					if dst != nil && dst != a {
+						r.Add("STRUCT.clone", fname, "one result object", pos, false, "different objects returned on different paths")
+						return 1
+					}
+					dst = a
+				}
+			}
+		}
+	}
+	if dst == nil {
+		r.Add("STRUCT.clone", fname, "one result object", pos, false, "the returned value is not a local object")
+		return 1
+	}
+	st, ok := dst.Type().Underlying().(*types.Pointer).Elem().Underlying().(*types.Struct)
+	if !ok {
+		r.Fatalf("%s: result is not a struct", fname)
+		return 0
+	}
+	// srcPath: v is a load of a source location; returns its field path ("" = the whole source)
+	var srcPath func(v ssa.Value) (string, bool)
+	srcPath = func(v ssa.Value) (string, bool) {
+		switch x := v.(type) {
+		case *ssa.UnOp:
+			if x.Op == token.MUL {
+				root, path := core.AddrKey(x.X)
+				if srcRoots[root] {
+					return path, true
+				}
+			}
+		case *ssa.Field:
+			if base, ok := srcPath(x.X); ok {
+				return base + "." + core.FieldOfValue(x), true
+			}
+		case *ssa.Parameter:
+			if x == src {
+				return "", true
+			}
+		}
+		return "", false
+	}
+	// derive: source field paths a value is computed from (first path component only)
+	var derive func(v ssa.Value, seen map[ssa.Value]bool, out map[string]bool)
+	derive = func(v ssa.Value, seen map[ssa.Value]bool, out map[string]bool) {
+		if seen[v] {
+			return
+		}
+		seen[v] = true
+		if path, ok := srcPath(v); ok {
+			out[topField(path)] = true
+			return
+		}
+		in, ok := v.(ssa.Instruction)
+		if !ok {
+			return
+		}
+		for _, op := range in.Operands(nil) {
+			if *op != nil {
+				derive(*op, seen, out)
+			}
+		}
+	}
+	n := 0
+	// K2
+	type dstStore struct {
+		field string
+		st    *ssa.Store
+	}
+	var stores []dstStore
+	for _, b := range fn.Blocks {
+		for _, in := range b.Instrs {
+			if s, ok := in.(*ssa.Store); ok {
+				root, path := core.AddrKey(s.Addr)
+				if root == dst {
+					stores = append(stores, dstStore{topField(path), s})
+				}
+			}
+		}
+	}
+	for _, ds := range stores {
+		from := map[string]bool{}
+		derive(ds.st.Val, map[ssa.Value]bool{}, from)
+		var names []string
+		for f := range from {
+			names = append(names, f)
+		}
+		sort.Strings(names)
+		want := ds.field
+		okv := len(names) == 1 && names[0] == want
+		label := want
+		if label == "" {
+			label = "(whole value)"
+		}
+		n++
+		r.Add("STRUCT.clone", fname, "K2: result."+label+" is computed from the same field of the original", p.Position(ds.st.Pos()), okv,
+			"computed from: ["+strings.Join(names, ", ")+"]")
+	}
+	// K3
+	for _, b := range fn.Blocks {
+		for _, in := range b.Instrs {
+			mk, ok := in.(*ssa.MakeSlice)
+			if !ok {
+				continue
+			}
+			lc, ok := mk.Len.(*ssa.Call)
+			if !ok || core.BuiltinName(lc) != "len" {
+				continue
+			}
+			x := lc.Call.Args[0]
+			xu, ok := x.(*ssa.UnOp)
+			if !ok || xu.Op != token.MUL {
+				continue
+			}
+			xr, xp := core.AddrKey(xu.X)
+			sameX := func(v ssa.Value) bool {
+				u, ok := v.(*ssa.UnOp)
+				if !ok || u.Op != token.MUL {
+					return false
+				}
+				rr, pp := core.AddrKey(u.X)
+				return rr == xr && pp == xp
+			}
+			// values that denote the fresh slice: mk itself or a load of an address it was stored to
+			type akey struct {
+				root ssa.Value
+				path string
+			}
+			homes := map[akey]bool{}
+			for _, ref := range *mk.Referrers() {
+				if s, ok := ref.(*ssa.Store); ok && s.Val == mk {
+					rr, pp := core.AddrKey(s.Addr)
+					homes[akey{rr, pp}] = true
+					// through an element pointer: &m2[i].payload has root &m2[i] (an IndexAddr chain is followed by AddrKey)
+				}
+			}
+			isFresh := func(v ssa.Value) bool {
+				if v == mk {
+					return true
+				}
+				if u, ok := v.(*ssa.UnOp); ok && u.Op == token.MUL {
+					rr, pp := core.AddrKey(u.X)
+					return homes[akey{rr, pp}]
+				}
+				return false
+			}
+			filled := false
+			for _, b2 := range fn.Blocks {
+				if !(b == b2 || b.Dominates(b2)) {
+					continue
+				}
+				for _, in2 := range b2.Instrs {
+					switch y := in2.(type) {
+					case *ssa.Call:
+						if core.BuiltinName(y) == "copy" && isFresh(y.Call.Args[0]) && sameX(y.Call.Args[1]) {
+							if b2 != b || core.Precedes(mk, y) {
+								filled = true
+							}
+						}
+					case *ssa.Store:
+						// m[i] = X[i] (possibly through a loop variable)
+						ia, ok := y.Addr.(*ssa.IndexAddr)
+						if !ok || !isFresh(ia.X) {
+							continue
+						}
+						if elementOf(y.Val, ia.Index, sameX, map[ssa.Value]bool{}) {
+							filled = true
+						}
+					}
+				}
+			}
+			n++
+			r.Add("STRUCT.clone", fname, "K3: "+p.TextAt(mk.Pos(), "make")+" is filled from the slice whose length it takes", p.Position(mk.Pos()), filled,
+				"no copy(<fresh>, <source>) dominated by the allocation and no element store fresh[i] = source[i]")
+		}
+	}
+	// K1
+	nilable := func(t types.Type) bool {
+		switch t.Underlying().(type) {
+		case *types.Slice, *types.Pointer, *types.Map, *types.Interface:
+			return true
+		}
+		return false
+	}
+	type k1state struct {
+		written map[string]bool
+		nilSrc  map[string]bool
+	}
+	cl := func(s *k1state) *k1state {
+		ns := &k1state{map[string]bool{}, map[string]bool{}}
+		for k := range s.written {
+			ns.written[k] = true
+		}
+		for k := range s.nilSrc {
+			ns.nilSrc[k] = true
+		}
+		return ns
+	}
+	missing := map[string]string{} // field -> path description
+	onPath := map[*ssa.BasicBlock]int{}
+	seen := map[string]bool{}
+	var trail []*ssa.BasicBlock
+	nRet := 0
+	var walk func(b *ssa.BasicBlock, s *k1state)
+	walk = func(b *ssa.BasicBlock, s *k1state) {
+		if onPath[b] >= 2 {
+			return
+		}
+		var ks []string
+		for k := range s.written {
+			ks = append(ks, "w"+k)
+		}
+		for k := range s.nilSrc {
+			ks = append(ks, "n"+k)
+		}
+		sort.Strings(ks)
+		key := fmt.Sprint(b.Index, ks)
+		if seen[key] && onPath[b] == 0 {
+			return
+		}
+		seen[key] = true
+		onPath[b]++
+		trail = append(trail, b)
+		defer func() { onPath[b]--; trail = trail[:len(trail)-1] }()
+		for _, in := range b.Instrs {
+			switch x := in.(type) {
+			case *ssa.Store:
+				root, path := core.AddrKey(x.Addr)
+				if root == dst {
+					s.written[topField(path)] = true
+				}
+			case *ssa.Return:
+				nRet++
+				for i := 0; i < st.NumFields(); i++ {
+					f := st.Field(i)
+					if fieldDeprecated(p, f) {
+						continue
+					}
+					if s.written[""] || s.written[f.Name()] || (nilable(f.Type()) && s.nilSrc[f.Name()]) {
+						continue
+					}
+					if _, dup := missing[f.Name()]; !dup {
+						var ls []string
+						for _, tb := range trail {
+							for _, ti := range tb.Instrs {
+								if ti.Pos().IsValid() {
+									ls = append(ls, fmt.Sprint(p.Fset.Position(ti.Pos()).Line))
+									break
+								}
+							}
+						}
+						missing[f.Name()] = "path through lines " + strings.Join(ls, ">")
+					}
+				}
+				return
+			case *ssa.If:
+				var fld string
+				nilOnTrue := false
+				if bo, ok := x.Cond.(*ssa.BinOp); ok && (bo.Op == token.EQL || bo.Op == token.NEQ) {
+					v, k := bo.X, bo.Y
+					if core.IsNilConst(v) {
+						v, k = k, v
+					}
+					if core.IsNilConst(k) {
+						if path, ok := srcPath(v); ok && path != "" {
+							fld = topField(path)
+							if strings.Count(path, ".") > 1 || strings.Contains(path, "[") {
+								fld = "" // a nested location, not the field itself
+							}
+							nilOnTrue = bo.Op == token.EQL
+						}
+					}
+				}
+				for i, succ := range b.Succs {
+					ns := cl(s)
+					if fld != "" && (i == 0) == nilOnTrue {
+						ns.nilSrc[fld] = true
+					}
+					walk(succ, ns)
+				}
+				return
+			case *ssa.Jump:
+				walk(b.Succs[0], s)
+				return
+			}
+		}
+	}
+	walk(fn.Blocks[0], &k1state{map[string]bool{}, map[string]bool{}})
+	for i := 0; i < st.NumFields(); i++ {
+		f := st.Field(i)
+		if fieldDeprecated(p, f) {
+			continue
+		}
+		n++
+		why, bad := missing[f.Name()]
+		r.Add("STRUCT.clone", fname, "K1: result."+f.Name()+" is written on every path (or the original's is nil)", pos, !bad && nRet > 0,
+			"not written on the "+why)
+	}
+	return n
+}
+
+func topField(path string) string {
+	path = strings.TrimPrefix(path, ".")
+	for i, ch := range path {
+		if ch == '.' || ch == '[' {
+			return path[:i]
+		}
+	}
+	return path
+}
+
+// elementOf: v is (a copy of) X[idx] for a source slice X accepted by sameX.
+func elementOf(v ssa.Value, idx ssa.Value, sameX func(ssa.Value) bool, seen map[ssa.Value]bool) bool {
+	if seen[v] {
+		return false
+	}
+	seen[v] = true
+	u, ok := v.(*ssa.UnOp)
+	if !ok || u.Op != token.MUL {
+		return false
+	}
+	switch a := u.X.(type) {
+	case *ssa.IndexAddr:
+		return a.Index == idx && sameX(a.X)
+	case *ssa.Alloc:
+		// loop variable: every store into it must be such an element
+		okAll, any := true, false
+		for _, ref := range *a.Referrers() {
+			if s, ok := ref.(*ssa.Store); ok && s.Addr == a {
+				any = true
+				if !elementOf(s.Val, idx, sameX, seen) {
+					okAll = false
+				}
+			}
+		}
+		return any && okAll
+	}
+	return false
+}
+
+// fieldDeprecated reports whether the struct field's doc comment marks it "Deprecated:".
+func fieldDeprecated(p *core.Program, f *types.Var) bool {
+	file := p.FileOf(f.Pos())
+	if file == nil {
+		return false
+	}
+	dep := false
+	ast.Inspect(file, func(n ast.Node) bool {
+		fl, ok := n.(*ast.Field)
+		if !ok {
+			return true
+		}
+		for _, nm := range fl.Names {
+			if nm.Pos() == f.Pos() && fl.Doc != nil && strings.Contains(fl.Doc.Text(), "Deprecated:") {
+				dep = true
+			}
+		}
+		return true
+	})
+	return dep
 }
